@@ -15,7 +15,10 @@ use super::try_sync_error::*;
 
 use std::fmt;
 use std::mem;
+#[cfg(not(desync_verif))]
 use std::sync::*;
+#[cfg(desync_verif)]
+use vsched::sync::*;
 use std::collections::vec_deque::*;
 use std::result::{Result};
 
@@ -29,6 +32,7 @@ use num_cpus;
 #[cfg(not(target_arch = "wasm32"))]
 const MIN_THREADS: usize = 8;
 
+#[cfg(not(desync_verif))]
 lazy_static! {
     static ref SCHEDULER: Arc<Scheduler> = Arc::new(Scheduler::new());
 }
@@ -94,6 +98,22 @@ impl Scheduler {
     #[cfg(target_arch = "wasm32")]
     pub fn set_max_threads(&self, max_threads: usize) {
         // Webassembly does not support threads so we run synchronously
+    }
+
+    ///
+    /// Verification hook: sets the maximum number of threads without eagerly spawning any
+    ///
+    #[cfg(desync_verif)]
+    pub fn verif_set_max_threads(&self, max_threads: usize) {
+        { *self.core.max_threads.lock().expect("Max threads lock") = max_threads };
+    }
+
+    ///
+    /// Verification hook: the number of threads currently owned by the scheduler
+    ///
+    #[cfg(desync_verif)]
+    pub fn verif_thread_count(&self) -> usize {
+        self.core.threads.lock().expect("Scheduler threads lock").len()
     }
 
     ///
@@ -662,8 +682,17 @@ impl fmt::Debug for Scheduler {
 }
 
 ///
+/// Verification hook: retrieves the scheduler of the current controlled execution
+///
+#[cfg(desync_verif)]
+pub fn scheduler<'a>() -> &'a Scheduler {
+    vsched::exec_local(|| Scheduler::new())
+}
+
+///
 /// Retrieves the global scheduler
 ///
+#[cfg(not(desync_verif))]
 pub fn scheduler<'a>() -> &'a Scheduler {
     &SCHEDULER
 }
